@@ -14,12 +14,16 @@ PROP = {
              "distinct = canonical JSON of the workload parameters"),
     "assumptions": [
         "unit TestVacuumKeepsEveryRegistration: the background removal of per-transaction state (MapVacuum, used for policy version pins and concurrency slots) on a virtual clock, with registrations forced inside a running pass; a key must stay until its time-to-live has passed and must be gone after time-to-live plus two ticks",
+        "unit TestLimiterHeldBetweenSteps: generated schedules hold Limiter transactions between the quota increment and the verdict (yield point limiter.between-inc-and-allowed) while other Limiter transactions and counted-only requests run to their end, after 0-4200 counted-only requests that are still in flight in the same quota window, on a plain quota or a quota with two internal limits; exactly min(n, max) of the n Limiter transactions must be admitted",
+        "unit TestLongWorkloads: the free-running workloads of unit 1 with 8-16 goroutines x 150-400 transactions inside one quota window (plain quota, quota with two internal limits one of which is only counted, concurrency quota)",
         "the race detector has no false positives but only sees interleavings that happen: a silent run is not proof of absence",
         "a race is identified by the unordered pair of innermost lunar functions of the two accesses",
         "Queue, Retry and cache processors and the HAR collector are not part of the workloads",
     ],
     "units": [
         dict({"pkg": "c18", "test": "TestWorkloads", "quick": 60, "thorough": 600, "shards": 16}, **_RACE),
+        dict({"pkg": "c18", "test": "TestLongWorkloads", "quick": 4, "thorough": 120, "shards": 4, "quick_shards": 2}, **_RACE),
+        dict({"pkg": "c18", "test": "TestLimiterHeldBetweenSteps", "quick": 320, "thorough": 6000, "shards": 8, "quick_shards": 4}, **_RACE),
         dict({"pkg": "c18", "test": "TestPolicyAccessorWorkload", "quick": 60, "thorough": 600, "shards": 16}, **_RACE),
         dict({"pkg": "c18", "test": "TestVacuumKeepsEveryRegistration", "quick": 1500, "thorough": 20000, "shards": 8}, **_RACE),
         dict({"pkg": "c18", "test": "TestManagerReloadWorkload", "quick": 75, "thorough": 600, "shards": 1}, **_RACE),
@@ -27,6 +31,6 @@ PROP = {
     "technique": "generated concurrent workloads and forced interleavings under the Go race detector (happens-before oracle, reports reduced to normalised signatures) plus serialisability checks of the verdicts",
     "level_text": ("generated concurrent workloads are executed against the real engine in a race-detector build; any unsynchronised access to engine state that the schedule exhibits is reported "
                    "(minus listed findings), and the verdicts are compared with what every one-at-a-time order would give. Search over schedules the Go scheduler happens to produce, not proof"),
-    "level_note": "needs hook H1; race build needs CGO (gcc present); misses are possible, false positives are not",
+    "level_note": "needs hooks H1 and limiter.between-inc-and-allowed; race build needs CGO (gcc present); misses are possible, false positives are not",
     "design_ref": "DESIGN.md section 2, C18",
 }
